@@ -89,8 +89,13 @@ def gen_elements(rnd, dim, stale_rate):
         if rnd.random() < 0.2:
             t["fill"] = rnd.choice(["#af032d", "#00ff00", ""])
         out[k] = t or {"hide": True}
-    if rnd.random() < 0.06:
+    if dim["type"] in ARRAY and rnd.random() < 0.15:
+        # the (undocumented) marker saying how the keys are to be read; with "subvar_id" a key
+        # that is no sub-variable id must match nothing - even when it looks like an element id
         out["key"] = rnd.choice(["alias", "subvar_id"])
+        if out["key"] == "subvar_id" and dim["elements"]:
+            el = rnd.choice(dim["elements"])
+            out["%04d" % el["id"] if isinstance(el["id"], int) and el["id"] >= 0 else str(el["id"])] = {"hide": True}
     return out
 
 
